@@ -283,3 +283,26 @@ PROPS["C12"] = {
         plain_unit("replay", "^TestC12_Replay$", replay=True),
     ],
 }
+
+PROPS["C08"] = {
+    "level": "fault_enumeration",
+    "exhaustive_key": "every byte offset of the newest file",
+    "rule": ("crash points = truncations. A generated persisted history (as C07, ending with 2-5 complete records, some with value blobs) is run, quiesced and "
+             "closed; the newest append file is cut at drawn byte offsets (header 0..12, every record x every residue 0..63; thorough: in a quarter of the cases at EVERY "
+             "byte offset of the file) and its value file at drawn offsets. For each cut a fresh leader must start on the cut copy and its in-package snapshot must equal "
+             "the snapshot recovered from the copy cut at the preceding record boundary (metamorphic: torn bytes contribute nothing; value-file cuts: equal to the state of "
+             "SOME complete-record prefix); then a second workload of persisted locks is run on the recovered instance, quiesced, and a following restart must recover the "
+             "live persisted state. evaluations = generated histories; the class 'crash points' counts the cuts. Non-trivial: newest file has >=3 records and the case "
+             "contains a cut with residue != 0 or a value-file cut. Distinct = FNV-64 of history + cut lists."),
+    "assumptions": [
+        "the file image at a system-call boundary is the crash state (un-synced page cache is not modelled)",
+        "only the newest append file and its value file are cut (older files are complete by construction of the writer)",
+        "the crash point between the record write and the value write of one Flush is represented by value-file cuts; hook H4 is not used yet",
+        "known findings of C07 (re-lock/update records, start-up compaction race) are excluded by construction here too",
+    ],
+    "units": [
+        rapid_unit("cuts", "^TestC08_CrashCut$", quick={"checks": 480, "shards": 16, "timeout_s": 420, "shrinktime": "45s"},
+                   thorough={"checks": 16000, "shards": 16, "timeout_s": 3000, "shrinktime": "90s"}),
+        plain_unit("replay", "^TestC08_Replay$", replay=True),
+    ],
+}
